@@ -5,13 +5,15 @@ Grammar (line oriented; '#' starts a comment line; indentation continues a claus
   @file <path relative to /repo> whole|listed
   @keep struct|impl|fn|const <name-or-header-substring>     (listed mode: copy this item verbatim)
   @dropitem <header substring> -- reason                     (whole mode: leave this item out)
+  @ghostfield <Struct> <field> <type>                        R22: the field (a PhantomData that stands for a borrow) gets this ghost type
   @inherent <impl header substring>                          R15: emit this trait impl as an inherent impl (same bodies), so that
                                                              its methods can carry `requires`; associated types are dropped
   @fn <Key>                                  Key = Self::name | Self as Trait::name | name  [#ordinal]
     ret <ident>                              name for the return value (default r)
     external -- reason                       R10: keep the text, #[verifier::external_body]
     rule R13 | rule R14                      statement desugarings applied in this function
-    deref griddle|hb <table place expr>      R21: every `RECV.as_ref()` / `RECV.as_mut()` of this function (RECV a bucket) becomes
+    ghostinit <field> <expr>                 R22: `<field>: PhantomData` in this function's struct literal becomes `<field>: <expr>`
+    deref griddle|hb|ghost <table place expr>      R21: every `RECV.as_ref()` / `RECV.as_mut()` of this function (RECV a bucket) becomes
                                              `bucket_ref(&RECV, &TBL)` / `bucket_mut(&RECV, &mut TBL)` (`hb_ref`/`hb_mut` for a raw
                                              hashbrown bucket): the table the bucket is dereferenced in is made explicit
     stake P..                                properties that depend on this function's body although no clause can say so:
@@ -61,6 +63,7 @@ class Fn:
         self.external = None
         self.rules = []
         self.deref = None    # R21: (kind, table place expression)
+        self.ghostinit = None  # R22: (field, expression)
         self.stake = []
         self.fnattr = []
         self.sigspec = []
@@ -77,6 +80,7 @@ class FileSpec:
         self.keep = []       # (kind, text)
         self.dropitems = []  # (text, reason)
         self.inherent = []   # R15: trait impls (header substring) emitted as inherent impls
+        self.ghostfields = []  # R22: (struct, field, type)
         self.fns = OrderedDict()
 
 
@@ -106,6 +110,9 @@ def parse(path):
         elif s.startswith("@keep "):
             _, kind, rest = s.split(None, 2)
             cur_file.keep.append((kind, rest))
+        elif s.startswith("@ghostfield "):
+            _, st_, fld_, ty_ = s.split(None, 3)
+            cur_file.ghostfields.append((st_, fld_, ty_.strip()))
         elif s.startswith("@inherent "):
             cur_file.inherent.append(s[len("@inherent "):].strip())
         elif s.startswith("@dropitem "):
@@ -170,10 +177,13 @@ def parse(path):
                 cur_target.external = s.partition("--")[2].strip() or "outside the verifier's subset"
             elif isinstance(cur_target, Fn) and s.startswith("stake "):
                 cur_target.stake += s.split()[1:]
+            elif isinstance(cur_target, Fn) and s.startswith("ghostinit "):
+                _, fld_, ex_ = s.split(None, 2)
+                cur_target.ghostinit = (fld_, ex_.strip())
             elif isinstance(cur_target, Fn) and s.startswith("deref "):
                 _, kind_, tbl_ = s.split(None, 2)
-                if kind_ not in ("griddle", "hb"):
-                    err("deref griddle|hb <table>")
+                if kind_ not in ("griddle", "hb", "ghost"):
+                    err("deref griddle|hb|ghost <table>")
                 cur_target.deref = (kind_, tbl_.strip())
             elif isinstance(cur_target, Fn) and s.startswith("rule "):
                 cur_target.rules.append(s.split()[1])
